@@ -594,7 +594,12 @@ func kdfIn(w *World, fn *ssa.Function) (*kdfFacts, string) {
 		}
 		// salt scheme: salt derives from (hash.Hash).Sum on a hash fed with the password
 		var parts []string
-		for _, root := range provenance(args[1], provOpts{}) {
+		seenPart := map[ssa.Value]bool{}
+		for _, root := range provInter(args[1], 0) {
+			if seenPart[root] {
+				continue
+			}
+			seenPart[root] = true
 			if cc, ok := root.(*ssa.Call); ok {
 				if sf := sCallee(cc); sf != nil {
 					parts = append(parts, sf.Name())
@@ -607,6 +612,9 @@ func kdfIn(w *World, fn *ssa.Function) (*kdfFacts, string) {
 					}
 				}
 			} else if cst, ok := root.(*ssa.Const); ok {
+				if cst.Value == nil {
+					continue // the zero value of the salt variable before a password is seen
+				}
 				parts = append(parts, "const:"+cst.String())
 			}
 		}
